@@ -40,6 +40,7 @@ __attribute__((noinline)) meshaxis_t e_wakescaling(ElectricField* f) { return f-
 }
 
 struct W { psp* ps; psp* ps2; std::shared_ptr<Impedance>* z; std::vector<impedance_t>* zv; std::vector<uint32_t>* bk; ElectricField* f; WakePotentialMap* wpm; std::vector<float>* d; };
+static int g_ztail = 0;      // number of exact zeros at the top of the positive-frequency half of the impedance (a table that ends below the grid's top frequency)
 static W build(int n, size_t N, int spacing, const std::vector<uint32_t>& bk, int seed, bool maps, int nbps = 0) {
     W w{}; int nb = nbps > 0 ? nbps : (int)bk.size();      // nbps: bunches of the phase space when it differs from the number of listed buckets (main after loading a single-bunch start file)
     PhaseSpace::resetSize(n, nb);
@@ -49,6 +50,7 @@ static W build(int n, size_t N, int spacing, const std::vector<uint32_t>& bk, in
     w.ps = new psp(new PhaseSpace(-6, 6, 2e-3, -6, 6, 4e5, nullptr, 1e-9, 1e-3, fill, 1, w.d->data()));
     w.ps2 = new psp(new PhaseSpace(-6, 6, 2e-3, -6, 6, 4e5, nullptr, 1e-9, 1e-3, fill, 1));
     w.zv = new std::vector<impedance_t>(N); for (size_t i = 0; i <= N / 2; i++) (*w.zv)[i] = impedance_t(u(g), u(g) - 0.5f);
+    for (int k = 0; k < g_ztail && (size_t)k <= N / 2; k++) (*w.zv)[N / 2 - k] = impedance_t(0, 0);
     w.z = new std::shared_ptr<Impedance>(new Impedance(*w.zv, 1e12f));
     w.bk = new std::vector<uint32_t>(bk);
     w.f = e_new_field(w.ps, w.z, w.bk, spacing, 2.7e6, 1e-3f, 1e-3, 1.3e9, 4.7e-4, 3e-12);
@@ -60,7 +62,7 @@ static void dumpf(FILE* f, const char* name, const float* p, size_t n) { fprintf
 int main(int argc, char** argv) {
     std::string mode = argc > 1 ? argv[1] : "";
     if (mode == "snap") {
-        int n = atoi(argv[3]); size_t N = atoi(argv[4]); int spacing = atoi(argv[5]); int cutoff = atoi(argv[6]) % 10; int nbps = atoi(argv[6]) / 10;
+        int n = atoi(argv[3]); size_t N = atoi(argv[4]); int spacing = atoi(argv[5]); int cutoff = atoi(argv[6]) % 10; int nbps = (atoi(argv[6]) / 10) % 10; g_ztail = atoi(argv[6]) / 100;
         std::vector<uint32_t> bk; for (int i = 7; i < argc; i++) bk.push_back(atoi(argv[i]));
         int nb = nbps > 0 ? nbps : (int)bk.size();
         W w = build(n, N, spacing, bk, 3, true, nbps);
@@ -80,9 +82,10 @@ int main(int argc, char** argv) {
         // c2r input preservation: recompute what the code put into the c2r input and compare after execution
         { bool keep = true; const planrec* c2r = nullptr; for (int i = 0; i < nplans; i++) if (plans[i].kind == 1) c2r = &plans[i];
           const planrec* r2c = nullptr; for (int i = 0; i < nplans; i++) if (plans[i].kind == 0) r2c = &plans[i];
+          long ch_lo = -1, ch_hi = -1;      // complex cells of the c2r input that the execution changed (FFTW's c2r plans may use their input as scratch space)
           if (c2r && r2c) { auto* in = (std::complex<float>*)c2r->in; auto* ff = (std::complex<float>*)r2c->out;
-            for (size_t i = 0; i < N / 2; i++) { std::complex<float> want = (*w.zv)[i] * ff[i]; if (in[i] != want) keep = false; }
-            for (size_t i = N / 2; i < N; i++) if (in[i] != std::complex<float>(0, 0)) keep = false; }
+            for (size_t i = 0; i < N / 2; i++) { std::complex<float> want = (*w.zv)[i] * ff[i]; if (in[i] != want) { keep = false; if (ch_lo < 0) ch_lo = i; ch_hi = i; } }
+            for (size_t i = N / 2; i < N; i++) if (in[i] != std::complex<float>(0, 0)) { keep = false; if (ch_lo < 0) ch_lo = i; ch_hi = i; } }
           // an in-place c2r plan (output buffer inside the input buffer) overwrites its input by construction; what matters then is that the cells of the
           // input buffer beyond the N real outputs (the top bin / its imaginary part) are left as they were
           int inplace = 0, tail = 1;
@@ -91,7 +94,7 @@ int main(int argc, char** argv) {
               for (size_t k = N; k < 2 * (N / 2 + 1); k++) { size_t bin = k / 2; std::complex<float> want = bin < N / 2 ? (*w.zv)[bin] * ff[bin] : std::complex<float>(0, 0);
                 float wv = (k % 2) ? want.imag() : want.real(); if (o0 == i0 && fin[k] != wv) tail = 0; }
               if (o0 != i0) tail = 0; } }
-          FILE* fc = fopen((std::string(argv[2]) + ".calib").c_str(), "w"); fprintf(fc, "c2r_input_preserved %d\nbuffers_zero_after_planning %d\nc2r_inplace %d\nc2r_inplace_tail_preserved %d\n", keep ? 1 : 0, zero_ok ? 1 : 0, inplace, tail); fclose(fc); }
+          FILE* fc = fopen((std::string(argv[2]) + ".calib").c_str(), "w"); fprintf(fc, "c2r_input_preserved %d\nbuffers_zero_after_planning %d\nc2r_inplace %d\nc2r_inplace_tail_preserved %d\nc2r_changed_lo %ld\nc2r_changed_hi %ld\n", keep ? 1 : 0, zero_ok ? 1 : 0, inplace, tail, ch_lo, ch_hi); fclose(fc); }
         const float* cs = e_csr(w.f, cutoff ? 3e11f : 0.0f); snap_step("e_csr", {A_p(w.f), A_f(cutoff ? 3e11f : 0.0f)}); snap_expect("csr", cs, 4 * nb * N, true, 0);
         snap_step("e_csrpower", {A_p(w.f)}); snap_expect("csrpower", w.f->getCSRPower(), 4 * nb, true, 0);
         wk = e_wake(w.f); snap_step("e_wake", {A_p(w.f)}); snap_expect("wake2", wk, 4 * nb * n, true, 0);
@@ -104,6 +107,7 @@ int main(int argc, char** argv) {
         int n = in.i("n"); size_t N = in.i("N"); int spacing = in.i("spacing");
         std::vector<uint32_t> bk; for (auto& s : in.kv["buckets"]) bk.push_back(atoi(s.c_str()));
         int nb = bk.size();
+        g_ztail = in.i("ztail", 0, 0);
         W w = build(n, N, spacing, bk, 3, false);
         if (in.has("z")) { auto v = in.fv("z"); auto* zd = const_cast<impedance_t*>((*w.z)->data()); for (size_t i = 0; i + 1 < v.size() && i / 2 < N; i += 2) zd[i / 2] = impedance_t(v[i], v[i + 1]); }
         FILE* fo = fopen(argv[3], "w");
